@@ -18,6 +18,7 @@ from mc.runner import Result
 
 PROPERTY = "C19"
 LEVEL = "model_checking"
+TECHNIQUE = "exhaustive enumeration of the argument product with outcome classification and implication checks between plans"
 ENGINE = "E1"
 RULE = (
     "state = one cell of reduction x engine x method x reindex x labels numpy|dask x layout x expected_groups x fill_value x chunking; "
